@@ -13,7 +13,7 @@ import hashlib
 from dsim.kernel import make_bench, cached_bench, Violations
 from models import usb2
 from models.usb2 import token_packet, sof_packet, data_packet, handshake_packet, apply_fault, parse_token
-from models.usb2_wire import render_rx, WaveActor, rand_timing
+from models.usb2_wire import render_rx, WaveActor, rand_timing, gen_idle_data
 
 PROPERTY = "C01"
 ENGINE = "usb2_wire"
@@ -27,7 +27,8 @@ RULES = {
 }
 PROBES = ["crc5_field_corrupt", "protected_bits_corrupt", "foreign_addr_one_bit_off", "stale_address_token", "ping_token",
           "overlong_with_valid_prefix", "truncated_to_2", "aborted_token", "gap_1_cycle", "sof_low_bits_ne_address",
-          "valid_token_after_faulty", "bad_pid_nibble", "token_with_byte_gaps", "special_pid_3_bytes"]
+          "valid_token_after_faulty", "bad_pid_nibble", "token_with_byte_gaps", "special_pid_3_bytes",
+          "overlong_ending_in_wellformed_token", "rx_data_junk_while_rx_valid_low"]
 META = {
     "components_real": ["luna.gateware.usb.usb2.packet.USBTokenDetector (+ its private USBInterpacketTimer)"],
     "components_stubbed": ["UTMI PHY receive side + host: literal waveform (models.usb2_wire.render_rx)",
@@ -88,6 +89,13 @@ def gen(rng, tier, index):
                 f = {"kind": k, "to": rng.choice([1, 2, 2])}
             elif k == "extend":
                 f = {"kind": k, "extra": bytes(rng.getrandbits(8) for _ in range(rng.randint(1, 3))).hex()}
+                if rng.random() < 0.4:
+                    # the surplus bytes end in a complete, well-formed token for this device (or a SOF): still ONE over-long,
+                    # malformed packet -- its tail must not be parsed as a token of its own
+                    tail = sof_packet(rng.getrandbits(11)) if rng.random() < 0.3 else token_packet(rng.choice(_TOK), address, rng.randrange(16))
+                    f["extra"] = (bytes(rng.getrandbits(8) for _ in range(rng.randint(1, 3))) + tail).hex()
+                    if rng.random() < 0.5:
+                        base = token_packet(rng.choice(_TOK), rng.randrange(128), rng.randrange(16))     # head for any address
             elif k == "bad_pid_nibble":
                 f = {"kind": k, "bit": rng.randrange(8)}
             else:
@@ -114,6 +122,7 @@ def gen(rng, tier, index):
         op["bytes"] = raw.hex()
         op["what"] = what
         ops.append(op)
+    cfg["idle_data"] = gen_idle_data(rng)
     return {"engine": ENGINE, "config": cfg, "ops": ops}
 
 
@@ -142,13 +151,15 @@ def run(scn):
     cfg = scn["config"]
     ops = scn["ops"]
     bench = _bench(cfg["clock"])
-    wave, packets = render_rx(ops, side={"address": 0, "speed": cfg["speed"]})
+    wave, packets = render_rx(ops, side={"address": 0, "speed": cfg["speed"]}, idle_data=cfg.get("idle_data"))
+    junk_runs = int(cfg.get("idle_data") is not None)
     actor = WaveActor(wave)
     log = bench.run([actor], max_cycles=len(wave) + 4)
     if len(actor.samples) < len(wave):
         raise RuntimeError("waveform was not played completely")
     viol = Violations()
     probes = {p: 0 for p in PROBES}
+    probes["rx_data_junk_while_rx_valid_low"] = junk_runs
     faults = {}
     outcomes = set()
 
@@ -205,6 +216,8 @@ def run(scn):
                 probes["protected_bits_corrupt"] += 1
         if fkind == "extend" and parse_token(sent[:3]) is not None:
             probes["overlong_with_valid_prefix"] += 1
+        if fkind == "extend" and len(sent) >= 7 and parse_token(sent[:3]) is not None and parse_token(sent[-3:]) is not None:
+            probes["overlong_ending_in_wellformed_token"] += 1
         if len(sent) == 2 and fkind in ("truncate", "abort_rx"):
             probes["truncated_to_2"] += 1
         if fkind == "abort_rx":
